@@ -231,6 +231,26 @@ func init() {
 		cfg("restart", 0), cfg("restart", 1), cfg("restart", 1, "newPrice", 1), cfg("restart", 0, "newVersion", 1, "newValidators", 1), cfg("restart", 1, "newVersion", 1, "newValidators", 1),
 	}, Bounds: "genesis block + one block, with or without a restart in between; emission, price reserves, last reward: unbounded integers"})
 
+	// ---------------------------------------------------------- C29 app DB + state tree through Snapshot/Restore
+	{
+		var cs []map[string]int64
+		for _, start := range []int{0, 7} {
+			for _, leaves := range []int{0, 1, 2, 3, 5} {
+				cs = append(cs, cfg("startHeight", start, "leaves", leaves, "validators", leaves%2, "secondBlock", (leaves/2)%2, "restartBeforeSnapshot", leaves%2, "queriedBeforeRestore", (leaves+1)%2))
+			}
+		}
+		cs = append(cs, cfg("startHeight", 7, "leaves", 4, "validators", 1, "secondBlock", 1, "restartBeforeSnapshot", 0, "queriedBeforeRestore", 1),
+			cfg("startHeight", 7, "leaves", 4, "validators", 0, "secondBlock", 0, "restartBeforeSnapshot", 1, "queriedBeforeRestore", 0))
+		add("C29", append([]string{
+			"the byte pipeline between AppDB.Snapshot and AppDB.Restore (delimited protobuf, zlib, bufio, the SDK chunk writer/reader and the channel) is modelled as a lossless in-order queue of messages in which an empty byte slice arrives as nil; chunking, compression, checksums, the SDK snapshot manager/store and the ABCI glue of coreV2/minter/snapshots.go are outside the claim",
+			"the IAVL exporter yields the leaves of the exported version in key order with a value-less inner node after every second leaf; the importer applies iavl's node validity rules and makes the leaves the imported version on Commit (tree shape, node hashes and per-node versions are outside the model; natively the real IAVL runs)",
+			"the goroutine spawned by Snapshot runs to completion at the spawn point (one schedule); its concurrency with block execution, guarded by AppDB.WG, is outside the claim (C25 is not applicable for the same reason)",
+			"the app-DB block of Blockchain.Commit is mirrored by the harness as SetLastBlockHash, SetLastHeight, FlushValidators, SaveBlocksTime, SaveVersions, SaveEmission, SavePrice; block execution on the restored node (lazy initState) is not part of this harness",
+			"emission > 0; block heights and block times are concrete",
+		}, commonAssumptions...), HSpec{Pkg: appdbPkg, Func: "VerifHarness_C29_SnapshotRestore", Tier: "quick", Configs: cs,
+			Bounds: "producer: genesis + at most one further block, state tree of at most 6 leaves (one with an empty value); one snapshot, one restore into a fresh node, one further block on both; emission, price reserves, last reward unbounded; app-hash byte, leaf bytes, validator power symbolic"})
+	}
+
 	// ---------------------------------------------------------- C09 state modules / C08 map order
 	{
 		var cs, cs8 []map[string]int64
